@@ -100,7 +100,15 @@ func main() {
 			if line == "" {
 				continue
 			}
-			obs, mi, nt := p.Run(line, st)
+			var obs, mi string
+			var nt bool
+			if panicked, msg := protect(func() { obs, mi, nt = p.Run(line, st) }); panicked {
+				// an uncaught panic while exercising the implementation on this case
+				if len(msg) > 200 {
+					msg = msg[:200]
+				}
+				obs, mi, nt = "!PANIC:"+strings.ReplaceAll(strings.ReplaceAll(msg, "\n", " "), "\t", " "), line, true
+			}
 			flag := "0"
 			if nt {
 				flag = "1"
